@@ -50,6 +50,9 @@ uint32_t nondet_uint32_t(void);
 uint16_t nondet_uint16_t(void);
 uint8_t nondet_uint8_t(void);
 int64_t nondet_int64_t(void);
+int8_t nondet_int8_t(void);
+int16_t nondet_int16_t(void);
+double nondet_double(void);
 int32_t nondet_int32_t(void);
 int nondet_int(void);
 unsigned nondet_unsigned(void);
